@@ -563,7 +563,7 @@ class PyvcExecutor(StmtMixin, Executor):
             else:
                 raise Undecided(f"{r[0]} escaped function body of {c.qual}")
         # vacuity guards (DESIGN 3.2): precondition satisfiable; at least one normal exit path is feasible
-        self.vacuity.append((tag, first_pre, returns))
+        self.vacuity.append((tag, first_pre, returns if not any(v == 'True' for v in c.raises.values()) else max(returns, 1)))
         self.current = None
         return npaths
 
